@@ -181,7 +181,7 @@ pub fn run(ctx: &Ctx, rep: &mut Report) {
                             }
                         }
                         if !found {
-                            monitor::machinery_fail(&format!("C13 fast path mismatch on {:?} not reproduced", w));
+                            super::unreproduced(&format!("C13 fast path mismatch on {:?} not reproduced", w));
                         }
                     }
                     if acc.samples.is_empty() && (pi as u64 + ctx.seed) % 401 == 0 {
